@@ -6,3 +6,7 @@ chk('C06', 'exhaustive pair enumeration + Hypothesis multi-area search vs a cell
     'All ordered pairs of rectangles of a 4x4 (quick) / 5x5 (thorough) grid for the four reference operators and simplify(), on Ranges objects with values and through SUM/COUNT formulas, against Python set/multiset arithmetic; Hypothesis adds multi-area operands, whole rows/columns, cross-sheet operands and grids of mixed value kinds. Exhaustive on the small grid because every relation of two rectangles (disjoint, touching, overlapping, containing, equal) already occurs there.',
     'Trusts the cell-set reading of the four operators given in the property; reversed-corner literals (A3:A1) and a parenthesised operand next to a bare one are outside the asserted grammar.',
     'DESIGN.md 2/C06')
+chk('C02', 'complete operand-kind cross product + Hypothesis floats vs own scalar reference (xlref)',
+    'The full cross product of a 38-45 value pool x 12 binary + 3 unary operators is enumerated in two spellings (cell values through a Dispatcher, literals through Parser.compile) and compared with an independent implementation of Excel\'s coercion / error / power / display / ordering rules; an oracle-free trichotomy + transitivity check over all pool triples; 5k-200k random float pairs. Enumeration of kinds is the right level: the rules are per kind pair.',
+    'Trusts xlref.core (my reading of Excel\'s operator rules). Ordering of text containing punctuation/non-ASCII is collation dependent and only (in)equality is asserted there; number display is asserted exactly only for <=15 significant digits in [1e-9,1e15).',
+    'DESIGN.md 2/C02')
